@@ -274,6 +274,10 @@ func (f *file) WriteAt(p []byte, off int64) (n int, err error) {
 }
 
 func (f *file) WriteBlobAt(p blob.Blob, off int64) (n int, err error) {
+	if f.flag&hackpadfs.FlagAppend != 0 {
+		// mirrors os.File: positional writes are refused on append-only handles instead of silently appending
+		return 0, &hackpadfs.PathError{Op: "writeat", Path: f.path, Err: errors.New("invalid use of WriteAt on file opened with O_APPEND")}
+	}
 	return f.writeBlobAt("writeat", p, off)
 }
 
